@@ -420,13 +420,56 @@ func c17Observers(r interface{ Intn(int) int }, c *Client, req *Request) string 
 	return desc
 }
 
+// c17PathForm: the ways a path can name one regular file p (already written). The size a
+// SetFile upload announces (FileUpload.FileSize, the total of the upload callback) is the size
+// of the content that Open(path) reads, whatever the form: the plain absolute path, an unclean
+// spelling of it, a path relative to the working directory, a hard link, a symbolic link with
+// an absolute or a relative target, and a chain of symbolic links. A form the platform refuses
+// (no symlinks / hard links) falls back to the plain path.
+func c17PathForm(r interface{ Intn(int) int }, p string) (string, string) {
+	dir, base := filepath.Dir(p), filepath.Base(p)
+	switch r.Intn(8) {
+	case 0:
+		sep := string(filepath.Separator)
+		return dir + sep + "." + sep + ".." + sep + filepath.Base(dir) + sep + sep + base, "unclean"
+	case 1:
+		if wd, err := os.Getwd(); err == nil {
+			if rel, err := filepath.Rel(wd, p); err == nil {
+				return rel, "relative"
+			}
+		}
+	case 2:
+		l := filepath.Join(dir, "hl_"+base)
+		if os.Link(p, l) == nil {
+			return l, "hardlink"
+		}
+	case 3:
+		l := filepath.Join(dir, "sa_"+base)
+		if os.Symlink(p, l) == nil {
+			return l, "symlink-abs"
+		}
+	case 4:
+		l := filepath.Join(dir, "sr_"+base)
+		if os.Symlink(base, l) == nil {
+			return l, "symlink-rel"
+		}
+	case 5:
+		l1 := filepath.Join(dir, "c1_"+base)
+		l2 := filepath.Join(dir, "c2_"+base)
+		if os.Symlink(base, l1) == nil && os.Symlink(l1, l2) == nil {
+			return l2, "symlink-chain"
+		}
+	}
+	return p, "plain"
+}
+
 // TestVerif_C17_e2eprogress: real uploads and downloads over loopback with progress callbacks
 // and several intervals; the recorded callback arguments are judged by the oracle, and for
 // the 1 h interval (clock never elapses) compared with the model, whose answer does not depend
 // on how the transfer was split into calls.
 func TestVerif_C17_e2eprogress(t *testing.T) {
 	s := verifh.New(t, "C17", "e2eprogress",
-		"downloads (Content-Length or chunked responses of 0 B … 300 KiB, SetOutput / SetOutputFile) and multipart uploads (1..3 files by path, bytes, reader, FileUpload with FileSize; sizes around 512 B and 32 KiB up to 200 KiB) over HTTP/1.1, HTTP/2 and (uploads) HTTP/3 with callback intervals 0, 1 ns, 1 ms, 1 h, each combined with tracing (off / Request.EnableTrace / Client.EnableTraceAll / DevMode) and dumping (off / client level / request level / without response body); oracle: per transfer the counts are strictly increasing, never above the true size, and end at it (downloads; uploads of known size); for interval 1 h the sequence equals the model's; non-trivial = a transfer with at least one callback")
+		"downloads (Content-Length or chunked responses of 0 B … 300 KiB, SetOutput / SetOutputFile) and multipart uploads (1..3 files by path — plain, unclean, relative, hard link, symbolic link absolute / relative / chained —, bytes, reader, FileUpload with FileSize; sizes around 512 B and 32 KiB up to 200 KiB) over HTTP/1.1, HTTP/2 and (uploads) HTTP/3 with callback intervals 0, 1 ns, 1 ms, 1 h, each combined with tracing (off / Request.EnableTrace / Client.EnableTraceAll / DevMode) and dumping (off / client level / request level / without response body); oracle: per transfer the counts are strictly increasing, never above the true size, and end at it (downloads; uploads of known size); for interval 1 h the sequence equals the model's; non-trivial = a transfer with at least one callback")
 	r := s.Rand()
 	dir := t.TempDir()
 	origins := map[string]*c17Origin{"h1": c17NewOrigin("h1"), "h2": c17NewOrigin("h2"), "h3": c17NewOrigin("h3")}
@@ -514,6 +557,7 @@ func TestVerif_C17_e2eprogress(t *testing.T) {
 			param   string
 			size    int
 			known   bool
+			byPath  string
 			emitted []int64
 			bad     bool
 		}
@@ -531,8 +575,11 @@ func TestVerif_C17_e2eprogress(t *testing.T) {
 			case 0:
 				p := filepath.Join(dir, "up"+strconv.Itoa(i)+"_"+strconv.Itoa(j))
 				os.WriteFile(p, data, 0o644)
+				p, form := c17PathForm(r, p)
+				s.Count("path-" + form)
 				req.SetFile(param, p)
 				rec.known = true
+				rec.byPath = form
 			case 1:
 				req.SetFileBytes(param, "b.bin", data)
 			case 2:
@@ -554,7 +601,9 @@ func TestVerif_C17_e2eprogress(t *testing.T) {
 			if rec == nil {
 				return
 			}
-			if info.FileSize != 0 && info.FileSize != int64(rec.size) {
+			// a file of known size (SetFile: whatever way the path names the file; FileUpload with
+			// FileSize) reports exactly the size of the uploaded content, others report 0 or it
+			if info.FileSize != int64(rec.size) && (rec.known || info.FileSize != 0) {
 				rec.bad = true
 			}
 			rec.emitted = append(rec.emitted, info.UploadedSize)
@@ -588,7 +637,7 @@ func TestVerif_C17_e2eprogress(t *testing.T) {
 				ok = false
 			}
 			total += len(rec.emitted)
-			fmt.Fprintf(&sb, "[%s size=%d known=%v -> %d callbacks last=%d]", p, rec.size, rec.known, len(rec.emitted), last)
+			fmt.Fprintf(&sb, "[%s size=%d known=%v path=%s badFileSize=%v -> %d callbacks last=%d]", p, rec.size, rec.known, rec.byPath, rec.bad, len(rec.emitted), last)
 			tot := 0
 			if rec.known {
 				tot = rec.size
